@@ -21,6 +21,7 @@ EXPLANATION = (
     "conversion vectors end with the unscaled sync segment (shared with C09). The numerical behaviour itself (exact "
     "float32 products, NumPy layout for every selector shape, mtscomp selectors) is NOT decided."
     ' (D4/D4b) The conversion vectors are additionally decided on an extracted segment model for every small channel / sync count (zero sync channels included): one factor per saved channel, analog channels with their own generation / stream gain, sync channels last with factor 1.'
+    ' (D1 as built) only gathers in the backward slice of the returned voltage array are paired (the sync decoding may gather its own columns); an index array may be swapped for the slice between its end points only under a guard establishing an increasing consecutive run; (D3) star-args dispatch read(*item) is accepted after the length test.'
 )
 ASSUMPTIONS = [
     "numpy fancy/slice indexing semantics (model table): x[..., sel] gathers columns in selector order",
